@@ -190,5 +190,6 @@ def cmdDecode (path : String) (os : Nat) (verbose : Bool) : IO Unit := do
     let a := accounting d
     IO.println s!"accounting ok={a.ok} leaked={a.leaked} doubleRef={a.doubleRef} freeAndUsed={a.freeAndUsed} doubleFree={a.doubleFree} freeOutOfRange={a.freeOutOfRange}"
     IO.println ("errors " ++ (if d.errors.isEmpty then "-" else " | ".intercalate d.errors))
+    IO.println s!"metas m0={metaValid f 16} m1={metaValid f (d.pageSize + 16)}"
 
 end Bolt.Driver
